@@ -61,13 +61,16 @@ def main():
             elif op[0] == 'append_item':
                 from logic import basic
                 path = basic.user_file(op[1])
+                old_mtime = os.stat(path).st_mtime
                 with open(path, encoding='utf-8') as f:
                     data = json.load(f)
                 data['content'].append(op[2])
                 with open(path, 'w', encoding='utf-8') as f:
                     json.dump(data, f)
                 st = os.stat(path)
-                os.utime(path, (st.st_atime, st.st_mtime + 10))
+                older = len(op) > 3 and op[3] == 'older'
+                # 'older': the new content carries a modification time BEFORE the one the cache saw (a restored backup, cp -p, rsync -t)
+                os.utime(path, (st.st_atime, (old_mtime - 100) if older else (st.st_mtime + 10)))
                 res.append(['append_item', op[1], 'ok'])
             elif op[0] == 'fail_parse_once':
                 # next items.parse_item call number k raises: an interrupted load
